@@ -1,6 +1,6 @@
 /* e_xapi - Tie-B engine for C15 (all interfaces agree): the REAL library, one cross-interface scenario per case.
  *   case kinds (k % NKIND): dfrle direct | DFSD->SD | SD->DFSD (+Vgroup view) | DFR8->GR (+DFP, raw RLE) | GR->DFR8 (+Vgroup view)
- *                           | DF24<->GR | DFP<->GR LUT | DFAN<->AN | nc*<->SD | legacy file | record codecs direct
+ *                           | DF24<->GR | DFP<->GR LUT | DFAN<->AN | nc*<->SD | legacy file | SD/nc objects over several sessions | record codecs direct
  * T lines:  `T dfrle enc|dec|rows ...` (real DFCIrle/DFCIunrle, also the rows of DFR8 RLE images as stored in the file)
  *           `T xapi sdd|sddrd|dim|dim8|dimrd ...` (record bytes found in the files / real Decode_diminfo, hdf_read_rank+hdf_read_dimsizes)
  * Oracles (model-independent): the shadow copy kept in C; keys `xapi-<writer>-<reader>:<what>`.
@@ -138,8 +138,9 @@ static void rle_garbage(void)
 #include "xapi_sd.h"
 #include "xapi_gr.h"
 #include "xapi_misc.h"
+#include "xapi_sess.h"
 
-#define NKIND 11
+#define NKIND 12
 static void run_case(int k)
 {
     case_no = k;
@@ -155,6 +156,7 @@ static void run_case(int k)
         case 7: case_an(); break;
         case 8: case_nc_sd(); break;
         case 9: case_legacy(k / NKIND + (int)(hk_seed0 % 1000) * 37); break; /* different files per seed; thorough tier covers all */
+        case 10: case_sessions(); break;
         default: case_codecs(); break;
     }
     reset_single_file_apis();
